@@ -83,6 +83,14 @@ pub fn audit(prop: &str) -> Option<Outcome> {
         "C11" => (true, true, false, true), "C12" => (false, false, false, true), "C13" => (false, true, true, true), "C16" => (true, false, false, false), _ => return None };
     let mut r = Rng::new(0xA0D17); let mut n = 0;
     let pool = [1u64, 2, 3, 5, 8];
+    // hand-built corner messages: ids that occur only under zero / tiny coefficients, an absent linear part, several constants
+    if u {
+        for f in [f_of(F::Quadratic(quad(&[(9, 9, 0.0)], None))), f_of(F::Quadratic(quad(&[(4, 9, 1e-17), (9, 2, 0.0)], Some(lin(&[], 0.0))))),
+                  f_of(F::Polynomial(poly(&[(&[7, 7, 3], 0.0), (&[], 2.0)]))), f_of(F::Linear(lin(&[(6, 0.0)], 1.0))), f_of(F::Polynomial(poly(&[(&[5], 1e-300)])))] {
+            n += 1;
+            if let Err(e) = used_ids(&f) { return Some(Outcome { cases: n, distinct: n, fail: Some(format!("an ASSUMED callee contract of the deductive route is false on the real code: {e}")) }); }
+        }
+    }
     for k in 0..(budget().min(2000) / 4 + 40) {
         n += 1;
         let f = rand_function(&mut r, &pool, 3, true);
